@@ -278,10 +278,14 @@ func zzCanaryStore(nNodes int, replicas intstr.IntOrString, bad int) (*fakeapi.C
 // ZZ_C15_percent: replicas given as a percentage is resolved against the number of nodes
 // the ExtendedDaemonSet targets, rounded up, when the canary starts.
 func ZZ_C15_percent() {
-	nNodes := zzConcInt(nondet.Int("nNodes", 1, 4), 1, 4)
+	// (from no targeted node at all: a percentage of nothing is nothing, not a shortage)
+	nNodes := zzConcInt(nondet.Int("nNodes", 0, 4), 0, 4)
 	pct := 0
+	isPct := true
 	var replicas intstr.IntOrString
-	switch nondet.String("replicas", "1%", "50%", "100%", "2") {
+	switch nondet.String("replicas", "0%", "1%", "50%", "100%", "2") {
+	case "0%":
+		pct, replicas = 0, intstr.FromString("0%")
 	case "1%":
 		pct, replicas = 1, intstr.FromString("1%")
 	case "50%":
@@ -289,10 +293,10 @@ func ZZ_C15_percent() {
 	case "100%":
 		pct, replicas = 100, intstr.FromString("100%")
 	default:
-		replicas = intstr.FromInt(2)
+		isPct, replicas = false, intstr.FromInt(2)
 	}
 	want := 2
-	if pct > 0 {
+	if isPct {
 		want = (pct*nNodes + 99) / 100
 	}
 	c, ds := zzCanaryStore(nNodes, replicas, -1)
@@ -300,7 +304,7 @@ func ZZ_C15_percent() {
 	// resolved against ("the number of nodes the ExtendedDaemonSet targets"): here all but the
 	// last node carry the label it asks for
 	candidates := nNodes
-	if nondet.Bool("canaryNodeSelectorExcludesLastNode") {
+	if nNodes >= 1 && nondet.Bool("canaryNodeSelectorExcludesLastNode") {
 		ds.Spec.Strategy.Canary.NodeSelector = &metav1.LabelSelector{MatchLabels: map[string]string{"canary": "yes"}}
 		for i, n := range c.Nodes {
 			if i < nNodes-1 {
@@ -311,7 +315,7 @@ func ZZ_C15_percent() {
 	}
 	_, err := zzReconcile(zzReconciler(c), "ns", "foo")
 	st := zzStoredEDS(c, "ns", "foo")
-	nondet.Fact("percent", pct > 0)
+	nondet.Fact("percent", isPct)
 	if want > candidates {
 		nondet.Assert("C15.percent.error-when-too-few", err != nil)
 		return
@@ -326,6 +330,8 @@ func ZZ_C15_percent() {
 	}
 	nondet.Reach("C15.percent.half-of-four", pct == 50 && nNodes == 4)
 	nondet.Reach("C15.percent.rounds-up", pct == 1 && nNodes == 3)
+	nondet.Reach("C15.percent.zero-percent", isPct && pct == 0 && nNodes == 3)
+	nondet.Reach("C15.percent.of-no-node", isPct && pct == 50 && nNodes == 0)
 }
 
 // ZZ_C15_refresh: while the canary is still running, a selected node that was deleted or
